@@ -21,6 +21,7 @@ import dataclasses
 import functools as ft
 import inspect
 import itertools as it
+import keyword
 import sys
 import warnings
 import weakref
@@ -600,7 +601,12 @@ def _make_fn_with_signature(
     else:
         outstr = "pass"
 
-    scope = {name: None}
+    # `name` need not be something that can be written after `def`, e.g. `<lambda>`.
+    if name.isidentifier() and not keyword.iskeyword(name):
+        def_name = name
+    else:
+        def_name = _gensym(param_names, prefix="fn")
+    scope = {def_name: None}
     name_to_annotation = {}
     name_to_default = {}
     param_triples = (
@@ -672,10 +678,10 @@ def _make_fn_with_signature(
     else:
         retstr = f"-> {name_to_annotation['return']}"
 
-    fnstr = f"def {name}({argstr}){retstr}:\n    {outstr}"
+    fnstr = f"def {def_name}({argstr}){retstr}:\n    {outstr}"
     exec(fnstr, scope)
-    fn = scope[name]
-    del scope[name]  # Avoids introducing a reference cycle.
+    fn = scope[def_name]
+    del scope[def_name]  # Avoids introducing a reference cycle.
     fn.__module__ = module
     fn.__qualname__ = qualname
     assert fn is not None
